@@ -6,7 +6,7 @@ from hypothesis import strategies as st
 
 from .. import gen
 from ..core import SubCheck, Violation
-from ..oracle import (lib, model_index, poscoded, ra_from_rows, py_sel, sel_kind, selected_rows,
+from ..oracle import (LAZY_CHOICES, lazy_ra, lib, model_index, poscoded, ra_from_rows, py_sel, sel_kind, selected_rows,
                       expect_ragged, expect_array, expect_refused, expect_unchanged, np_rows, mk_ra)
 
 RULE = ("Cases = (row-length vector, row selector, optional column selector, surface form) drawn from the index "
@@ -89,9 +89,10 @@ def check_index(ra, rows, r, c, form, exp_dtype="int64", **info):
 def body_pos(case, ctx):
     lens, r, c, form = case["lens"], case["r"], case["c"], case["form"]
     rows = poscoded(lens)
-    ra = ra_from_rows(rows)
+    lz = case.get("lz", 0)
+    ra = lazy_ra(rows, "int64", lz)      # "every ragged array": freshly built, or itself a pending selection
     m = model_index(rows, r, c)
-    ctx.label(*gen.shape_labels(lens), "form:" + form)
+    ctx.label(*gen.shape_labels(lens), "form:" + form, "source:pending" if lz else "source:fresh")
     classify(lens, r, c, m, ctx)
     check_index(ra, rows, r, c, form)
     expect_unchanged(ra, rows, "int64", "index")
@@ -109,14 +110,14 @@ def pos_case(draw, tier):
     else:
         forms = FORMS_COL if r[0] != "e" else ["pair"]   # numpy itself refuses two ellipses
     form = draw(st.sampled_from(forms))
-    return {"lens": lens, "r": r, "c": c, "form": form}
+    return {"lens": lens, "r": r, "c": c, "form": form, "lz": draw(st.sampled_from(LAZY_CHOICES))}
 
 
 def body_dtype(case, ctx):
     """dtype preservation and value identity on arbitrary element content"""
     a, r, c = case["a"], case["r"], case["c"]
     rows = np_rows(a)
-    ra = mk_ra(a)
+    ra = lazy_ra(rows, a["dt"], case.get("lz", 0))
     lrows = [list(x) for x in rows]
     m = model_index(lrows, r, c)
     ctx.label("dt:" + a["dt"])
@@ -132,7 +133,7 @@ def dtype_case(draw, tier):
     a = draw(gen.ragged(tier))
     n = len(a["lens"])
     L = max(a["lens"]) if a["lens"] else 0
-    return {"a": a, "r": draw(gen.rowsel(n)), "c": draw(gen.colsel(L))}
+    return {"a": a, "r": draw(gen.rowsel(n)), "c": draw(gen.colsel(L)), "lz": draw(st.sampled_from(LAZY_CHOICES))}
 
 
 # ---------------------------------------------------------------- exhaustive small scope
